@@ -17,7 +17,7 @@ open Gemato.L1 Gemato.U
 
 /-- the paths a write step for Manifest `mp` may touch: `mp` itself and its (de)compressed name -/
 def Owned (o : SaveOpts) (mp : Str) : Write → Prop
-  | .file p _ => p = mp ∨ p = mp ++ 46 :: o.format ∨ ∃ k, p = mp.take k
+  | .file p _ _ => p = mp ∨ p = mp ++ 46 :: o.format ∨ ∃ k, p = mp.take k
   | .unlink p => p = mp
 
 /-- **only Manifest paths are written or unlinked** by the write step -/
@@ -25,8 +25,8 @@ theorem C10_write_step_owned (o : SaveOpts) (ss1 : SSt) (mp : Str) :
     ∃ new, (writeStep o ss1 mp).writes = ss1.writes ++ new ∧ ∀ w ∈ new, Owned o mp w := by
   cases hw : o.watermark with
   | none =>
-    obtain ⟨_, text, ht⟩ := C13.C13_no_watermark_no_rename o ss1 mp hw
-    refine ⟨[.file mp text], ht, ?_⟩
+    obtain ⟨_, text, sg, ht⟩ := C13.C13_no_watermark_no_rename o ss1 mp hw
+    refine ⟨[.file mp text sg], ht, ?_⟩
     intro w hw'; simp at hw'; subst hw'; exact (Or.inl rfl : _ ∨ _)
   | some wm =>
     have key := C13.C13_watermark_step o ss1 mp wm hw
@@ -34,11 +34,11 @@ theorem C10_write_step_owned (o : SaveOpts) (ss1 : SSt) (mp : Str) :
     obtain ⟨k1, k2⟩ := key
     by_cases heq : (compressedSuffix? mp).isSome = Prof.wantCompressed o.profile mp
         (hasEbuildEntry (if o.sort then stableSort (fun a b => entryLt a.2 b.2) (ss1.st.entriesOf mp) else ss1.st.entriesOf mp))
-        (utf8Len (dumpEntries false ((if o.sort then stableSort (fun a b => entryLt a.2 b.2) (ss1.st.entriesOf mp) else ss1.st.entriesOf mp).map (·.2)))) wm
-    · obtain ⟨_, e2⟩ := k1 heq
+        (uncSizeFor o (signFor ss1.st mp) (dumpEntries false ((if o.sort then stableSort (fun a b => entryLt a.2 b.2) (ss1.st.entriesOf mp) else ss1.st.entriesOf mp).map (·.2)))) wm
+    · obtain ⟨_, sg, e2⟩ := k1 heq
       refine ⟨[_], e2, ?_⟩
       intro w hw'; simp at hw'; subst hw'; exact (Or.inl rfl : _ ∨ _)
-    · obtain ⟨newMp, _, e2, e3, e4⟩ := k2 heq
+    · obtain ⟨newMp, _, ⟨sg, sg', e2⟩, e3, e4⟩ := k2 heq
       refine ⟨[_, _, _], e2, ?_⟩
       intro w hw'
       simp at hw'
@@ -47,7 +47,7 @@ theorem C10_write_step_owned (o : SaveOpts) (ss1 : SSt) (mp : Str) :
       · show _ ∨ _ ∨ _
         cases hwant : Prof.wantCompressed o.profile mp
             (hasEbuildEntry (if o.sort then stableSort (fun a b => entryLt a.2 b.2) (ss1.st.entriesOf mp) else ss1.st.entriesOf mp))
-            (utf8Len (dumpEntries false ((if o.sort then stableSort (fun a b => entryLt a.2 b.2) (ss1.st.entriesOf mp) else ss1.st.entriesOf mp).map (·.2)))) wm with
+            (uncSizeFor o (signFor ss1.st mp) (dumpEntries false ((if o.sort then stableSort (fun a b => entryLt a.2 b.2) (ss1.st.entriesOf mp) else ss1.st.entriesOf mp).map (·.2)))) wm with
         | true => exact Or.inr (Or.inl (e3 hwant))
         | false => exact Or.inr (Or.inr ⟨_, e4 hwant⟩)
       · show mp = mp
@@ -100,9 +100,11 @@ theorem C10_saveOne_owned (w : World) (post : Str → Option FileMeta) (o : Save
     obtain ⟨k1, _⟩ := refresh_fold_no_writes w post o mp rel _ ss ss1 h1
     split at h
     · cases h; exact ⟨[], by simp [k1], by simp⟩
-    · cases h
-      obtain ⟨new, e1, e2⟩ := C10_write_step_owned o ss1 mp
-      exact ⟨new, by rw [e1, k1], e2⟩
+    · split at h
+      · cases h
+      · cases h
+        obtain ⟨new, e1, e2⟩ := C10_write_step_owned o ss1 mp
+        exact ⟨new, by rw [e1, k1], e2⟩
 
 -- the primitive edits of the update leave every other entry object alone -----------------------
 
